@@ -14,16 +14,60 @@ DECIDED = {("SO3Quat", "SO3Dcm"), ("SO3Quat", "SO3EulerB321"), ("SO3Quat", "SO3M
            ("SO3EulerB321", "SO3Dcm"), ("SO3EulerB321", "SO3Quat")}
 
 
+_const_float = cm.const_float
+
+
+def pole_band(c, theta=None):
+    """Recognises an Euler gimbal-band test.  -> (pole sign, half width in rad, tested quantity) or None.
+    Form A: fabs(theta -+ pi/2) < w  (theta the pitch angle, any value number).
+    Form B: +-s > k / +-s < -k with k a constant in (0, 1): a test on s = sin(pitch); half width acos(k)."""
+    import math
+    a = c.single_atom()
+    if a is None or a.kind not in ("lt", "le") or not isinstance(a.key[0], Poly):
+        return None
+    lo, hi = a.key
+    f = lo.single_atom()
+    if f is not None and f.kind == "fabs" and len(lo.t) == 1 and hi.const_value() is not None:
+        arg = f.key[0]
+        if not any(x.kind == "sym" and x.key[0] == "pi" for x in arg.atoms()):
+            return None
+        for sgn in (1, -1):
+            for flip in (1, -1):
+                # arg = flip * (theta - sgn*pi/2); fabs normalises the sign of the leading term, so the pole is only known
+                # once the pitch value number theta is given
+                th = arg.scale(flip) + cm.PI_POLY.scale(Fraction(sgn, 2))
+                if any(x.kind == "sym" and x.key[0] == "pi" for x in th.atoms()):
+                    continue
+                if theta is None:
+                    return 0, float(hi.const_value()), th
+                if th == theta:
+                    return sgn, float(hi.const_value()), th
+        return None
+    # form B: k < s  (s > k: upper pole) or s < -k, i.e. lt(s, -k) (lower pole); k = constant
+    kl, kh = _const_float(lo) if not any(x.kind == "sym" and x.key[0] != "pi" for x in all_atoms(lo)) else None, \
+        _const_float(hi) if not any(x.kind == "sym" and x.key[0] != "pi" for x in all_atoms(hi)) else None
+    # k must be near 1 (a band around the pole: cos 0.5 rad at the very widest), which also keeps small tolerance guards
+    # such as |T| > 1e-3 from being mistaken for a gimbal test
+    if kl is not None and kh is None and 0.87 < kl < 1:
+        sg, q = 1, hi           # k < q
+    elif kh is not None and kl is None and -1 < kh < -0.87:
+        sg, q = -1, lo          # q < -k
+        kl = -kh
+    else:
+        return None
+    if theta is None:
+        return 0, math.acos(kl), q
+    st = cm.un("sin", theta)
+    if q == st:
+        return sg, math.acos(kl), q
+    if q == -st:
+        return -sg, math.acos(kl), q
+    return None
+
+
 def pole_conditions(M):
-    """if_else conditions of the Euler gimbal band: lt(fabs(theta -+ pi/2), 1e-3)."""
-    out = []
-    for c in ite_conditions(M):
-        a = c.single_atom()
-        if a is not None and a.kind == "lt" and isinstance(a.key[0], Poly):
-            f = a.key[0].single_atom()
-            if f is not None and f.kind == "fabs" and a.key[1].const_value() is not None:
-                out.append(c)
-    return out
+    """if_else conditions that are Euler gimbal-band tests (either recognised form)."""
+    return [c for c in ite_conditions(M) if pole_band(c) is not None]
 
 
 def shadow_conditions(M):
@@ -43,38 +87,40 @@ def regular_branches(M):
     return branches(M1, limit=4), len(fixed)
 
 
-def check_pairs(w, rep, tier):
+def check_pairs(w, rep, tier, only=None, RP="C07.preserve", RA="C07.API"):
+    """only: restrict to a set of (source, destination) pairs; RP / RA: rule ids to report under (other properties reuse
+    single pairs of this rule for the conversions their own clauses are routed through)."""
     reps = {nm: w.G(nm) for nm in SO3_REPS}
     for src, Gs in reps.items():
         X, xp = w.fresh(Gs, "X")
         quats = quats_of(w, Gs, xp)
-        okm, M = guarded(w, rep, "C07.API", "%s.to_Matrix" % src, lambda: w.call(X, "to_Matrix"))
+        okm, M = guarded(w, rep, RA, "%s.to_Matrix" % src, lambda: w.call(X, "to_Matrix"))
         for dst, Gd in reps.items():
-            if src == dst:
+            if src == dst or (only is not None and (src, dst) not in only):
                 continue
             meth = "from_" + SUFFIX[src]
             inst = "%s.%s" % (dst, meth)
             W = w.method_where(Gd, meth)[:2]
-            ok, Y = guarded(w, rep, "C07.API", inst, lambda: w.call(Gd, meth, X))
+            ok, Y = guarded(w, rep, RA, inst, lambda: w.call(Gd, meth, X))
             if not ok:
                 continue
             good = isinstance(Y, Instance) and Y.attrs.get("group") is Gd
-            rep.check("C07.API", "%s returns an element of %s" % (inst, dst), good, "conversion does not return an element of the destination group", where=W)
+            rep.check(RA, "%s returns an element of %s" % (inst, dst), good, "conversion does not return an element of the destination group", where=W)
             if not good or not okm:
                 continue
             if src == "SO3Dcm":
-                rep.na("C07.preserve", "%s keeps the rotation matrix" % inst, "a DCM source is nine unconstrained symbols (orthonormality is not expressible in the canonical form); routing is checked by C07.flow")
+                rep.na(RP, "%s keeps the rotation matrix" % inst, "a DCM source is nine unconstrained symbols (orthonormality is not expressible in the canonical form); routing is checked by C07.flow")
                 continue
             if dst == "SO3Mrp" and src != "SO3Quat":
-                rep.na("C07.preserve", "%s keeps the rotation matrix" % inst, "decided by composition: C07.flow routes it through SO3Quat, and SO3Mrp.from_Quat is decided directly")
+                rep.na(RP, "%s keeps the rotation matrix" % inst, "decided by composition: C07.flow routes it through SO3Quat, and SO3Mrp.from_Quat is decided directly")
                 continue
-            okt, M2 = guarded(w, rep, "C07.preserve", "%s to_Matrix" % inst, lambda: w.call(Y, "to_Matrix"))
+            okt, M2 = guarded(w, rep, RP, "%s to_Matrix" % inst, lambda: w.call(Y, "to_Matrix"))
             if not okt:
                 continue
             with with_maxdeg(30):
                 bs, nfixed = regular_branches(M2)
                 if bs is None:
-                    rep.incomplete("C07.preserve", "%s keeps the rotation matrix" % inst, "too many if_else conditions", where=W)
+                    rep.incomplete(RP, "%s keeps the rotation matrix" % inst, "too many if_else conditions", where=W)
                     continue
                 alleq = True
                 for desc, Mb in bs:
@@ -84,13 +130,13 @@ def check_pairs(w, rep, tier):
                     alleq = False
                     label = "%s keeps the rotation matrix [branch %s]" % (inst, desc[:80])
                     if v == DIFFERENT:
-                        rep.fail("C07.preserve", label, "to_Matrix(%s(X)) differs from to_Matrix(X): %s" % (inst, d), where=W, fact={"difference": d})
+                        rep.fail(RP, label, "to_Matrix(%s(X)) differs from to_Matrix(X): %s" % (inst, d), where=W, fact={"difference": d})
                     elif (src, dst) in DECIDED:
-                        rep.incomplete("C07.preserve", label, "cannot decide: %s" % d, where=W)
+                        rep.incomplete(RP, label, "cannot decide: %s" % d, where=W)
                     else:
-                        rep.na("C07.preserve", label, "not decided: %s" % d)
+                        rep.na(RP, label, "not decided: %s" % d)
                 if alleq:
-                    rep.ok("C07.preserve", "%s keeps the rotation matrix (all %d selector branches; regular Euler band, principal MRP)" % (inst, len(bs)),
+                    rep.ok(RP, "%s keeps the rotation matrix (all %d selector branches; regular Euler band, principal MRP)" % (inst, len(bs)),
                            fact={"branches": len(bs), "fixed_conditions": nfixed})
 
 
@@ -172,6 +218,97 @@ def check_from_matrix(w, rep, R="C07.from-matrix", RV="C07.valid", RS="C07.shepp
                     rep.fail(RS, "pivot %d radicand sign pattern" % k, "radicand is 1 %s, expected signs %s" % (signs, want), where=W)
             if okpat:
                 rep.ok(RS, "pivot radicands are 1 + tr, 1 + R00 - R11 - R22, 1 - R00 + R11 - R22, 1 - R00 - R11 + R22")
+                check_shepperd_selection(rep, RS, per_slot[0], w.sym, W)
+
+
+def check_shepperd_selection(rep, RS, leaves0, _sym, W):
+    """The selection tree only compares diagonal entries (and tests the trace): a finite set of orderings decides it.
+    For a rotation matrix the four radicands sum to 4; with tr <= 0 the radicand of the LARGEST diagonal entry is
+    1 + 2 R_kk - tr >= 1, the others can vanish.  So: selection 1 exactly under tr > 0, and for each of the six strict
+    orderings of (R00, R11, R22) the selection reached with tr <= 0 must be the one whose pivot is the largest entry -
+    otherwise the chosen candidate divides by a pivot that is zero for rotations about the other axes (NaN)."""
+    import itertools
+
+    def diag_index(p):
+        a = p.single_atom()
+        if a is not None and a.kind == "sym" and isinstance(a.key[1], int) and a.symname == "R":
+            # 3x3 symbol, column-major linear index
+            i = a.key[1]
+            if i in (0, 4, 8):
+                return i // 4
+        return None
+
+    def is_trace_test(p):
+        a = p.single_atom()
+        if a is None or a.kind != "lt" or a.key[0].const_value() != 0:
+            return False
+        t = a.key[1]
+        return len(t.t) == 3 and all(c == 1 for c in t.t.values()) and sorted(diag_index(Poly({m: 1})) for m in t.t) == [0, 1, 2]
+
+    def ev(p, rank):
+        """Truth value of a condition under a strict ordering (rank[i] = position of R_ii), None if not an ordering test."""
+        cv = p.const_value()
+        if cv is not None:
+            return cv != 0
+        a = p.single_atom()
+        if a is None:
+            return None
+        if a.kind in ("lt", "le"):
+            i, j = diag_index(a.key[0]), diag_index(a.key[1])
+            if i is None or j is None:
+                return None
+            return rank[i] < rank[j]
+        if a.kind in ("and", "or"):
+            x, y = ev(a.key[0], rank), ev(a.key[1], rank)
+            if x is None or y is None:
+                return None
+            return (x and y) if a.kind == "and" else (x or y)
+        if a.kind == "not":
+            x = ev(a.key[0], rank)
+            return None if x is None else not x
+        return None
+
+    names = ["trace", "R00", "R11", "R22"]
+    # leaf k = (path, value); pivot of leaf k is slot k (checked by the caller)
+    for k, (path, _) in enumerate(leaves0):
+        tests = [(c, t) for c, t in path if is_trace_test(c)]
+        want = [True] if k == 0 else [False]
+        if [t for _, t in tests] != want or (k == 0 and len(path) != 1):
+            rep.incomplete(RS, "selection %d guard" % (k + 1), "the trace test is not the outermost selector in the expected polarity", where=W)
+            return
+    bad = []
+    undecided = False
+    for perm in itertools.permutations(range(3)):
+        rank = {d: perm.index(d) for d in range(3)}          # larger rank = larger entry
+        largest = perm[2]
+        reached = []
+        for k, (path, _) in enumerate(leaves0):
+            if k == 0:
+                continue
+            okp = True
+            for c, t in path:
+                if is_trace_test(c):
+                    continue
+                v = ev(c, rank)
+                if v is None:
+                    undecided = True
+                    okp = False
+                    break
+                if v != t:
+                    okp = False
+                    break
+            if okp:
+                reached.append(k)
+        if undecided:
+            break
+        if reached != [largest + 1]:
+            bad.append((" < ".join(names[d + 1] for d in perm), [names[k] for k in reached]))
+    inst = "with trace <= 0 the candidate whose pivot is the largest diagonal entry is selected (all 6 orderings)"
+    if undecided:
+        rep.incomplete(RS, inst, "a selector is not a comparison of diagonal entries", where=W)
+    else:
+        rep.check(RS, inst, not bad, "; ".join("for %s the %s candidate is selected" % (o, "/".join(r) or "no") for o, r in bad) +
+                  ": it divides by a pivot that vanishes for rotations about another axis (NaN), the largest pivot is >= 1/2", where=W, fact={"orderings": 6})
 
 
 def _is_half_sqrt(p):
@@ -236,18 +373,31 @@ def check_siblings_and_validity(w, rep):
         bs = branches(p, limit=3)
         pitch_ok = bs is not None and all((b.cells[1][0].signed_atom() is not None and b.cells[1][0].signed_atom()[1].kind == "asin") for _, b in bs)
         rep.check("C07.euler", "pitch slot is asin(.) on every branch (pitch in [-pi/2, pi/2])", pitch_ok, "the pitch slot is not an asin value on every branch", where=W)
-        poles = pole_conditions(p)
-        consts = sorted({str(c.single_atom().key[1].const_value()) for c in poles})
-        both = len(poles) == 2 and len(consts) == 1
-        if both:
-            args = [c.single_atom().key[0].single_atom().key[0] for c in poles]    # theta -+ pi/2 inside fabs
-            th = [a for a in p.cells[1][0].atoms() if a.kind == "ite"]
-            s = args[0] + args[1]
-            d = args[0] - args[1]
-            # the two arguments are theta - pi/2 and theta + pi/2 (sum 2 theta, difference +- pi); fabs normalisation may flip signs
-            both = any(x.const_value() is not None and abs(x.const_value()) == 0 or (len(x.t) == 1 and list(x.t)[0] == ((cm.PI_POLY.single_atom(), 1),)) for x in (s, d))
-        rep.check("C07.euler", "both gimbal poles (+pi/2 and -pi/2) are handled with the same band", both,
-                  "gimbal handling is not symmetric: %d pole conditions, band constants %s" % (len(poles), consts), where=W)
+        check_euler_band(w, rep, p, "C07.euler", W)
+
+
+def check_euler_band_rule(w, rep, RULE):
+    """Entry point for other properties whose clauses are routed through SO3EulerB321.from_Matrix (C02: Euler exp)."""
+    E = w.G("SO3EulerB321")
+    ok, val = guarded(w, rep, RULE, "SO3EulerB321.from_Matrix", lambda: w.call(E, "from_Matrix", w.sym("M", 3, 3)))
+    if ok:
+        check_euler_band(w, rep, w.param(val), RULE, w.method_where(E, "from_Matrix")[:2])
+
+
+def check_euler_band(w, rep, p, RULE, W):
+    """Both gimbal poles are tested, each with a band of half width <= 1e-3 rad (the documented band) around +-pi/2.
+    The test may be written on the angle (fabs(theta -+ pi/2) < w) or on its sine (s > cos w); what is compared is the
+    half width in radians, so an equivalent rewrite is accepted and sin(theta) > 1 - 1e-3 (a 2.6 degree band) is not."""
+    conds = pole_conditions(p)
+    theta = assign_ites(p, {c: False for c in conds}).cells[1][0]       # pitch on the regular branch
+    bands = [b for b in (pole_band(c, theta) for c in conds) if b is not None]
+    signs = sorted(b[0] for b in bands)
+    rep.check(RULE, "SO3EulerB321.from_Matrix tests both gimbal poles (+pi/2 and -pi/2)", signs == [-1, 1],
+              "gimbal handling is not symmetric: recognised pole tests for %s" % (signs or "no pole"), where=W, fact={"poles": signs})
+    for sgn, width, _ in bands:
+        rep.check(RULE, "gimbal band at %spi/2 has half width <= 1e-3 rad" % ("+" if sgn > 0 else "-"), 0 < width <= 1e-3 * (1 + 1e-9),
+                  "the degenerate (roll := 0) branch is taken within %.4g rad of the pole, the documented band is 1e-3 rad: conversions are wrong for pitch in between" % width, where=W,
+                  fact={"half_width_rad": width})
 
 
 def check_poles(w, rep):
@@ -311,7 +461,7 @@ def run(w, rep, tier):
     rep.rule("C07.shepperd", "Shepperd selections return their pivot in slot order with the matching radicand sign pattern")
     rep.rule("C07.SIB", "SO3Dcm.from_Mrp, from_Mrp_alternative and SO3Mrp.to_Matrix denote the same matrix")
     rep.rule("C07.valid", "results are valid representatives: unit quaternions, orthonormal matrices, shadow-switched MRPs")
-    rep.rule("C07.euler", "Euler from_Matrix: asin in the pitch slot on every branch, both gimbal poles with one band constant")
+    rep.rule("C07.euler", "Euler from_Matrix: asin in the pitch slot on every branch; both gimbal poles tested with a band of half width <= 1e-3 rad (test on the angle or on its sine); exact poles reproduce the matrix")
     rep.rule("C07.flow", "conversions defined by composition are routed through the stated intermediate representation")
     check_pairs(w, rep, tier)
     check_from_matrix(w, rep)
